@@ -34,6 +34,9 @@ KindOf(ln, g) ==
   ELSE IF Changed(g.before, g.after, ln.m) THEN "frame" ELSE "effect"
 
 Devs(ln) == FlatMap(LAMBDA g : IF Allowed(g.before, ln.m, [r |-> g.r, after |-> g.after]) THEN <<>>
+                               ELSE IF g.r # "panic" /\ ImplAllowed(g.before, ln.m, [r |-> g.r, after |-> g.after])
+                               THEN << [i |-> cur, as |-> g.as, op |-> ln.m.op, kind |-> "as-implemented", m |-> g.msg,
+                                        loc |-> [frag |-> "slice", pos |-> "inclusive-end-reading", cont |-> "-", pre |-> "-", bound |-> <<"-">>]] >>
                                ELSE << [i |-> cur, as |-> g.as, op |-> ln.m.op, kind |-> KindOf(ln, g), m |-> g.msg,
                                         loc |-> Locus(ln.m.path, g.before, ln.fx)] >>, ln.o)
 \* the simple flavour threads doc
